@@ -83,14 +83,14 @@ checks = {
         ] + gw_approve + [gw_approve3],
     },
     "C03": {
-        "verus": ["C03."],
+        "verus": ["C03.", "C08.validate_proof.latest_flag"],
         "scans": ["c03_writers"],
-        "kani": gw_rotate_auth + [gw_rotate_entry] + gw_ctor,
+        "kani": gw_rotate_auth + [gw_rotate_entry, k(GW, C + "c03_lookup_views", "AxelarGateway::epoch / epoch_by_signers_hash / signers_hash_by_epoch")] + gw_ctor,
     },
     "C08": {
         "verus": ["C08."],
         # the configured retention must be the one construction stores
-        "kani": [dict(h, also=["C03.ctor_retention_stored"]) for h in gw_ctor] + [gw_rotate_entry] + [dict(gw_approve[1], also=["C01.approve_only_with_valid_proof", "C01.approve_digest", "C01.approve_err_is_proof_err"])] + [k(GW, C + "c01_validate_proof_entry", "AxelarGateway::validate_proof", also=["C01.entry"])],
+        "kani": [dict(h, also=["C03.ctor_retention_stored"]) for h in gw_ctor] + [gw_rotate_entry, dict(gw_rotate_auth[0], also=["C03.never_installed_before", "C03.epoch_by_hash_set", "C03.epoch_plus_one"])] + [dict(gw_approve[1], also=["C01.approve_only_with_valid_proof", "C01.approve_digest", "C01.approve_err_is_proof_err"])] + [k(GW, C + "c01_validate_proof_entry", "AxelarGateway::validate_proof", also=["C01.entry"])],
     },
     "C09": {
         "kani": [gw_update_ts, k(GW, A + "c03_rotate_signers", "auth::rotate_signers", also=["C03.delay_flag_forwarded"]), gw_rotate_entry],
@@ -139,7 +139,8 @@ checks["C06"] = {"kani": [
     k(GW, C + "c06_gateway_transfer_ownership", "AxelarGateway::transfer_ownership"), k(GW, C + "c06_gateway_transfer_operatorship", "AxelarGateway::transfer_operatorship"),
     k(GW, C + "c06_gateway_constructor", "AxelarGateway::__constructor"), gw_rotate_entry,
     gas("c06_gas_transfer_ownership", "transfer_ownership"), gas("c14_collect_fees", "collect_fees"), gas("c14_refund", "refund"), gas("c14_constructor_and_view", "__constructor"),
-    ops("c06_operators_transfer_ownership", "transfer_ownership"), ops("c17_add_operator", "add_operator"), ops("c17_remove_operator", "remove_operator"),
+    ops("c06_operators_transfer_ownership", "transfer_ownership"), ops("c17_add_operator", "add_operator", also=["C17.add_absent_to_present", "C17.add_frame"]),
+    ops("c17_remove_operator", "remove_operator", also=["C17.remove_present_to_absent", "C17.remove_frame"]), ops("c17_execute", "execute", also=["C17.only_current_operators"]),
 ] + token_admin + [dict(h, also=["C15.upgrade_needs_owner", "C15.migrate_needs_owner"]) for h in upgrades[:-1]]}
 checks["C07"] = {"kani": [
     # a negative amount would debit the counterparty without its authorisation, so the sign checks belong here too
@@ -165,7 +166,7 @@ codec_amount = k(ITS, "abi::verif::c10_to_i128_full_domain", "abi::to_i128 (assu
 # "takes effect exactly once / unexecuted approval" rests on the gateway's C02 contracts (consume once; an executed id is never re-approved)
 gw_once = [k(GW, C + "c02_validate_message", "AxelarGateway::validate_message (consumed exactly once)", also=["C02.consume", "C02.refused"]),
            dict(gw_approve[1], also=["C02.approve_step"]), dict(gw_approve[2], also=["C02.approve_step"])]
-checks["C04"] = {"kani": its_c04 + gw_once + [codec_amount, k(GW, "executable::verif::c16_default_validate_message", "AxelarExecutableInterface::validate_message (default)", also=["C16.default"]),
+checks["C04"] = {"kani": its_c04 + gw_once + [its("c04_is_trusted_chain_view", "is_trusted_chain"), codec_amount, k(GW, "executable::verif::c16_default_validate_message", "AxelarExecutableInterface::validate_message (default)", also=["C16.default"]),
                           its("c06_its_constructor_and_views", "__constructor / views", also=["C04.hub_chain_name_constant"])]}
 checks["C05"] = {"kani": [
     its("c05_pay_gas_and_call_contract", "pay_gas_and_call_contract"), its("c05_interchain_transfer", "interchain_transfer / token_handler::take_token"),
@@ -215,6 +216,26 @@ checks["C14"]["lemmas"] = ["c14_history_balance"]
 # the service-level checks that use the codec through its contract also run the sampled codec test (bounded stand-in for A-ALLOY)
 for _p in ("C04", "C05", "C18"):
     checks[_p]["codec_differential"] = True
+
+# exported-entry-point reachability frames: no entry point outside the ones under contract reaches the sink
+def _add_scans(pid, names):
+    checks[pid].setdefault("scans", [])
+    for n in names:
+        if n not in checks[pid]["scans"]:
+            checks[pid]["scans"].append(n)
+_add_scans("C13", ["c13_announcers"])
+_add_scans("C02", ["c02_exported_writers"])
+_add_scans("C03", ["c03_exported_writers"])
+_add_scans("C14", ["c14_fund_movers"])
+_add_scans("C12", ["c12_balance_writers", "c12_allowance_writers"])
+_add_scans("C05", ["c05_token_movers"])
+_add_scans("C11", ["c11_registry_writers"])
+_add_scans("C17", ["c17_forwarders"])
+_add_scans("C06", ["c06_role_writers"])
+_add_scans("C07", ["c14_fund_movers", "c05_token_movers", "c17_forwarders", "c13_announcers"])
+_add_scans("C16", ["c02_exported_writers"])
+_add_scans("C04", ["c05_token_movers", "c11_registry_writers"])
+_add_scans("C18", ["c05_token_movers"])
 
 if __name__ == "__main__":
     here = os.path.dirname(os.path.abspath(__file__))
